@@ -30,6 +30,8 @@ type Pkg struct {
 	Deps  []int    `json:"deps,omitempty"` // indices of packages this one depends on (root module)
 	// the rule file comes after 1.2 MiB of comment lines (rendered by the fetcher, not stored in the case)
 	PadRules bool `json:"pad_rules,omitempty"`
+	// the fetcher does not fill the directory it is given but replaces it by a link to a checkout elsewhere
+	ReplaceDir bool `json:"replace_dir,omitempty"`
 }
 
 type Case struct {
@@ -73,6 +75,10 @@ func (f fetcher) FetchSourcePackage(ctx context.Context, st string, u *url.URL, 
 				}
 			}
 		}
+		if p.ReplaceDir {
+			os.Remove(dir)
+			return resp, os.Symlink(filepath.Join(f.arena, "outside", "checkout"), dir)
+		}
 		vars := map[string]string{"T": dir, "A": f.arena, "SIB": sib, "TB": filepath.Base(dir)}
 		if f.c.Clone && i == len(f.c.Pkgs)-1 {
 			i, p = 0, f.c.Pkgs[0]
@@ -110,6 +116,11 @@ var arenaTree = fsx.Tree{
 	{Path: "outside/dir/f", Kind: "file", Content: "OUT:f", Mode: 0644, Sec: 1400000001},
 	{Path: "outside/pipe", Kind: "fifo"},
 	{Path: "outside/site.ignore", Kind: "file", Content: "*.log\n", Mode: 0644, Sec: 1400000002},
+	{Path: "outside/checkout/main.tf", Kind: "file", Content: "OUT:checkout", Mode: 0644, Sec: 1400000003},
+	{Path: "outside/checkout/.git/HEAD", Kind: "file", Content: "ref: x", Mode: 0644, Sec: 1400000004},
+	{Path: "outside/checkout/notes/todo.txt", Kind: "file", Content: "OUT:notes", Mode: 0644, Sec: 1400000005},
+	{Path: "outside/checkout/secrets.auto.tfvars", Kind: "file", Content: "OUT:secret", Mode: 0600, Sec: 1400000006},
+	{Path: "outside/checkout/.terraformignore", Kind: "file", Content: "notes/\n*.tfvars\n", Mode: 0644, Sec: 1400000007},
 }
 
 // definitelyBad: a hazard that no reading of the rules permits in a finished bundle.
@@ -178,6 +189,10 @@ func checkSanitised(c Case) error {
 			text = *p.Rules
 		}
 		rules = refignore.Rules(text)
+		if p.ReplaceDir && reach[pi] {
+			planted = true
+			mustFail = "package directory that is a link to a directory elsewhere"
+		}
 		for _, n := range p.Tree {
 			if n.Kind == "symlink" || n.Kind == "fifo" || n.Kind == "socket" {
 				planted = true
@@ -431,6 +446,7 @@ func TestPropSanitised(t *testing.T) {
 				p.Rules = &s
 				p.PadRules = rapid.IntRange(0, 19).Draw(t, "padrules") == 0
 			}
+			p.ReplaceDir = rapid.IntRange(0, 24).Draw(t, "replacedir") == 0
 			if n > 1 {
 				p.Deps = rapid.SliceOfN(rapid.IntRange(0, n-1), 0, 2).Draw(t, "deps")
 			}
